@@ -104,7 +104,7 @@ def build():
     info["extra_runners_ok"] = {
         name: (ROOT / "bin" / name).exists() and f"{name}_status=0" in (
             (BUILD / f"{name}.log").read_text() if (BUILD / f"{name}.log").exists() else "")
-        for name in ("scs_runner",)}
+        for name in ("scs_runner", "fmask_runner")}
     return info
 
 
@@ -388,7 +388,18 @@ def main():
         proof_broken.append(f"theorems not established: {sorted(set(names) - set(discharged))} ({detail}); "
                             + "; ".join(binfo.get("make_errors", [])[:3]))
     if not binfo.get("skipped") and not binfo.get("runner_ok", True):
-        proof_broken.append("model_runner could not be built (model does not compile against the regenerated kernels)")
+        # the runner is one binary for all properties: it concerns this property only if a file this property depends on is
+        # to blame (or nothing more specific can be blamed); otherwise the previous binary, whose kernels for this property
+        # are unchanged, keeps serving the correspondence runs
+        blamed = set(re.findall(r"TRANSLATION-REFUSED (\w+\.v)", "\n".join(binfo.get("refused", []))))
+        blamed |= set(re.findall(r'File "\./Gen/(\w+\.v)"', "\n".join(binfo.get("make_errors", []))))
+        other = [e for e in binfo.get("make_errors", []) if re.search(r'File "\./(Base|Model|Spec|Extract)/', e)]
+        mine = set(getattr(mod, "GEN_FILES", []))
+        if not blamed or other or (blamed & mine) or not (ROOT / "bin" / "model_runner").exists():
+            proof_broken.append("model_runner could not be built (model does not compile against the regenerated kernels)")
+        else:
+            print(f"# model_runner not rebuilt ({sorted(blamed)} did not translate/compile; none of this property's files): "
+                  "the previous binary serves the correspondence runs", file=sys.stderr)
     for extra in getattr(mod, "RUNNERS", []):
         if not binfo.get("skipped") and not binfo.get("extra_runners_ok", {}).get(extra, True):
             proof_broken.append(f"{extra} could not be built (its model does not compile against the regenerated definitions)")
